@@ -247,7 +247,7 @@ type segJob struct {
 
 // Run is the C16 check.
 func Run(ctx *core.Ctx) {
-	ctx.Rule = "part A: homogeneous command streams per transport (RESP, telnet, native: mixed 5-60 commands with quoting/JSON/mode switches, a value > 64 KiB, a command boundary exactly at 0xFFFF, a pipeline of 300-500 (quick) or 1000-3000 (thorough) cheap commands; HTTP: single GET/POST requests incl. a > 64 KiB body); each stream starts with FLUSHDB so its reply stream is a function of its bytes; baseline = one write; compared: EVERY 2-way cut position, random k-way cuts, byte-at-a-time, each segment followed by a wait for the replies it completes, then half-close and read to EOF; canonical reply sequences (timing masked) must be equal and as long as the command list; a mismatch is reported only if it shows again on a fresh server and connection. non-trivial = a cut strictly inside a command, distinct key = (stream, cut positions). terminal streams (commands sharing a stream with SUBSCRIBE/PSUBSCRIBE and the subscription loop's own commands; commands followed by an invalid HTTP request, a protocol error, an unbalanced quote, QUIT in the middle) are judged on the complete reply byte stream read to EOF: every 2-way cut, all unit boundaries, byte-at-a-time against the single write; one OPTIONS request must get one response whatever follows it. " +
+	ctx.Rule = "part A: homogeneous command streams per transport (RESP, telnet, native: mixed 5-60 commands with quoting/JSON/mode switches, a value > 64 KiB, a command boundary exactly at 0xFFFF, a pipeline of 300-500 (quick) or 1000-3000 (thorough) cheap commands; HTTP: single GET/POST requests incl. a > 64 KiB body); each stream starts with FLUSHDB so its reply stream is a function of its bytes; baseline = one write; compared: EVERY 2-way cut position, random k-way cuts, byte-at-a-time, each segment followed by a wait for the replies it completes, then half-close and read to EOF; canonical reply sequences (timing masked) must be equal and as long as the command list; a mismatch is reported only if it shows again on a fresh server and connection. non-trivial = a cut strictly inside a command, distinct key = (stream, cut positions). terminal streams (commands sharing a stream with SUBSCRIBE/PSUBSCRIBE and the subscription loop's own commands; commands followed by an invalid HTTP request, a protocol error, an unbalanced quote, QUIT in the middle) are judged on the complete reply byte stream read to EOF: every 2-way cut, all unit boundaries, byte-at-a-time against the single write; one OPTIONS request must get one response whatever follows it; 1100 rejected WHEREEVAL clauses of each malformed kind on one connection must leave scripts usable for another connection. " +
 		"part B: fuzz inputs from three generators (PRNG bytes / bit-flips of valid streams; grammar mutation of one valid template per command form; the systematic argument-shape sweep shared with C17) plus protocol-header shapes, each logged before it is sent on its own connection to a child server (one per batch) holding a small dataset with hooks; after every input a bystander connection runs one kmodel-checked read or write on a key the generators cannot name; non-trivial = input that produced >= 1 reply, distinct key = (generator, template, mutation ops, transport, reply class)"
 	ctx.Assumptions = []string{
 		"HTTP: the server closes the connection after one request, so an HTTP stream is one request",
